@@ -437,6 +437,7 @@ type pgen struct {
 	aliasReset                                                           bool
 	oversizeReset                                                        bool
 	overfill                                                             float64 // probability that a feed exceeds the free space
+	trickle                                                              float64 // probability that a feed is only 1..3 bytes
 }
 
 func defaultPGen() pgen {
@@ -455,6 +456,9 @@ func genParserOps(r *RNG, spec *ParserSpec, g pgen, inputLen int) []Op {
 	remaining := inputLen
 	feedSize := func() int {
 		free := bs - held
+		if g.trickle > 0 && r.Chance(g.trickle) {
+			return 1 + r.Intn(3)
+		}
 		var n int
 		switch r.Intn(6) {
 		case 0:
